@@ -82,15 +82,13 @@ func runHash(c HCase) *h.Result {
 		}
 	}
 	used := usedKeys(c)
-	if h.ExclOn("eq-through-float") {
-		for a, i := range used {
-			for _, j := range used[a+1:] {
-				if lossy(c.Keys[i], c.Keys[j]) {
-					res.Skip = "eq-through-float"
-					return res
-				}
-			}
-		}
+	var usedObjs []Obj
+	for _, i := range used {
+		usedObjs = append(usedObjs, c.Keys[i])
+	}
+	if tag := predExcluded(usedObjs...); tag != "" {
+		res.Skip = tag
+		return res
 	}
 	if h.ExclOn("hash-go-map-key") && goMapKeyTrouble(c) {
 		res.Skip = "hash-go-map-key"
@@ -120,8 +118,9 @@ func runHash(c HCase) *h.Result {
 	for i := range eqv {
 		eqv[i] = make([]bool, n)
 	}
-	for i := 0; i < n; i++ {
-		for j := 0; j < n; j++ {
+	// (only keys that some operation uses take part)
+	for _, i := range used {
+		for _, j := range used {
 			v, msg := call(scope, fmt.Sprintf("(eql k%d k%d)", i, j))
 			evals++
 			if msg != "" {
@@ -130,12 +129,12 @@ func runHash(c HCase) *h.Result {
 			eqv[i][j] = v
 		}
 	}
-	for i := 0; i < n; i++ {
-		for j := 0; j < n; j++ {
+	for _, i := range used {
+		for _, j := range used {
 			if eqv[i][j] != eqv[j][i] || (i == j && !eqv[i][j]) {
 				return h.Fail("eql is not an equivalence on the key pool %v (k%d, k%d)", c.Keys, i, j)
 			}
-			for k := 0; k < n; k++ {
+			for _, k := range used {
 				if eqv[i][j] && eqv[j][k] && !eqv[i][k] {
 					return h.Fail("eql is not transitive on the key pool %v (k%d, k%d, k%d)", c.Keys, i, j, k)
 				}
@@ -371,7 +370,7 @@ var (
 
 func testHash(t *testing.T) {
 	h.RunProp(t, hashGrid, 0)
-	h.RunProp(t, hashProp, h.N(8000, 200000))
+	h.RunProp(t, hashProp, h.N(15000, 200000))
 	if h.C.Shard != 0 {
 		return
 	}
